@@ -370,3 +370,14 @@ v("C18", M, "                            else:\n                                
 v("C14", CA, "        self._subscribers_request.append(callback)\n", "        pass\n", "break", "subscribe_request records nothing")
 v("C05,C14", J21, "        self._cas.append(ca)\n", "        pass\n", "break", "add_ca does not register the CA")
 v("C07", J22, "                            last_segment = (package+1) == buf['num_segments']\n", "", "break", "name read but never bound (NameError in the job thread)")
+v("C17,C18", M, "                        self.state = DMState.REQUEST_STARTED\n                        self.server.parse_dm14(priority, pgn, sa, timestamp, data)\n", "                        self.server.parse_dm14(priority, pgn, sa, timestamp, data)\n                        self.state = DMState.REQUEST_STARTED\n", "break", "facade marks the request as started after the server has sent the seed (ordering sweep)")
+v("C17", S, "        self.state = ResponseState.SEND_OPERATION_COMPLETE\n        self._send_dm15(\n            self.length,\n            self.direct,\n            self.status,\n            self.state,\n            self.object_count,\n            self.sa,\n        )\n", "        self._send_dm15(\n            self.length,\n            self.direct,\n            self.status,\n            self.state,\n            self.object_count,\n            self.sa,\n        )\n        self.state = ResponseState.SEND_OPERATION_COMPLETE\n", "break", "operation-complete DM15 built before the state says so (ordering sweep)")
+
+# ---------------------------------------------------------------- from the boundary sweep (tools/bound_sweep.py)
+v("C02,C03", J22, "        if len(data) < 12:", "        if len(data) <= 12:", "break", "every 12-byte FD.TP.CM dropped as too short")
+v("C02", J22, "                    and (len(self._rcv_buffer[buffer_hash]['data']) >= self._rcv_buffer[buffer_hash]['message_size']):", "                    and (len(self._rcv_buffer[buffer_hash]['data']) > self._rcv_buffer[buffer_hash]['message_size']):", "break", "delivery demands more bytes than announced")
+v("C02", J22, "                        while buf['next_packet_to_send'] < buf['num_segments']:", "                        while buf['next_packet_to_send'] <= buf['num_segments']:", "break", "FD burst loop admits index == count")
+v("C01", J21, "                        while buf['next_packet_to_send'] < buf['num_packages']:", "                        while buf['next_packet_to_send'] <= buf['num_packages']:", "break", "burst loop admits index == count")
+v("C16", DM, "        if length < 6:", "        if length <= 6:", "break", "DM1 with one code rejected")
+v("C16", DM, "        if length < 6:", "        if length <= 5:", "keep", "same boundary")
+v("C06,C12", ECU, "                    if next_wakeup > event['deadline']:\n                        next_wakeup = event['deadline']\n                else:", "                    if next_wakeup >= event['deadline']:\n                        next_wakeup = event['deadline']\n                else:", "keep", "minimum with equality")
